@@ -182,10 +182,12 @@ OPS12 = [("get", "a", None), ("get", "b", None), ("get", "c", None),
          ("gos", "a", 1), ("get", "b", 2), ("sel", ["a", "b"], None), ("gos", ["c", "a"], 3),
          ("write", "a"), ("wback", "a"), ("delete", "a"), ("write", "b"), ("delete", "c")]
 OPS6 = [("get", "a", None), ("get", "b", None), ("get", "c", None), ("sel", ["c", "a"], None), ("write", "a"), ("delete", "b")]
+# the auto_reload attribute may be switched on a live environment: what counts is its value at the time of the lookup
+OPS8 = [("get", "a", None), ("get", "b", None), ("sel", ["c", "a"], None), ("write", "a"), ("delete", "b"), ("write", "b"), ("auto", True), ("auto", False)]
 
 
 def OPS():
-    return OPS6 if P.get("ops") == 6 else OPS12
+    return OPS6 if P.get("ops") == 6 else (OPS8 if P.get("ops") == 8 else OPS12)
 
 
 def HLEN():
@@ -255,6 +257,10 @@ def run_history(ops):
             continue
         if op[0] == "delete":
             store.delete(op[1])
+            continue
+        if op[0] == "auto":
+            env.auto_reload = op[1]
+            model.auto = op[1]
             continue
         g = op[2]
         kw = {} if g is None else {"globals": {"g": g}}
@@ -401,4 +407,14 @@ def conditions(tier, seed):
                             timeout=to, witnesses=[[hist_no(w[:n6], 6, first)] for w in wit],
                             bounds=f"all histories of {n6} operations (base-6 digits) from get a/get b/get c/select([c,a])/write a/delete b "
                                    "(eviction order needs four lookups); every step compared with the reference model"))
+    n8 = 5 if th else 4
+    for kind, size, auto in [("dict", 2, False), ("dict", -1, True), ("fs", 2, False)] + ([("func", 1, False), ("dict", 0, False)] if th else []):
+        for first in (range(8) if n8 >= 5 else [None]):
+            f0 = 0 if first is None else first
+            wit = [[f0, 6, 3, 0, 1], [f0, 3, 6, 0, 0], [f0, 7, 3, 0, 6], [f0 if first is not None else 4, 6, 1, 2, 5]]
+            out.append(Cond(_name(kind, size, auto, ",8 ops with auto_reload switches" + ("" if first is None else f",first={first}")), "cache_ok", mode="B",
+                            param={"loader": kind, "size": size, "auto": auto, "hlen": n8, "first": first, "ops": 8},
+                            timeout=to, witnesses=[[hist_no(w[:n8], 8, first)] for w in wit],
+                            bounds=f"all histories of {n8} operations (base-8 digits) from get a/get b/select([c,a])/write a/delete b/write b/"
+                                   "auto_reload = True/auto_reload = False; the reference model uses the auto_reload value at the time of each lookup"))
     return out
